@@ -161,6 +161,21 @@ impl EventGen for ReuseElement {
                 // fight with, the per-axis attributes written here (the attributes of a
                 // group are variables of its content: it is moved by a transform)
                 instance_element.expand_compound_pos();
+                // an axis the reuse does not position keeps the template's own position
+                // (set_position_attrs drops the instance's cx / cy / x2 ... as superseded)
+                let own = Position::from(&instance_element);
+                if !pos.has_x_position() {
+                    pos.xmin = own.xmin;
+                    pos.xmax = own.xmax;
+                    pos.cx = own.cx;
+                    pos.dx = own.dx;
+                }
+                if !pos.has_y_position() {
+                    pos.ymin = own.ymin;
+                    pos.ymax = own.ymax;
+                    pos.cy = own.cy;
+                    pos.dy = own.dy;
+                }
             }
             pos.set_position_attrs(&mut instance_element);
         }
